@@ -39,7 +39,7 @@ class Spec(unit.UnitSpec):
     relation = "Mmtk.Layout.{noOverlap, verifyContext} ≙ side_metadata::sanity::{verify_no_overlap_contiguous, verify_metadata_context}"
     assumptions = ["64-bit target: every spec is contiguous", "base + offset + range size does not overflow usize "
                    "(the runtime base cancels out of the comparisons)",
-                   "a fresh SideMetadataSanity per context (first call of verify_metadata_context)"]
+                   "a fresh SideMetadataSanity per case; `sanity multi` registers up to 8 policies (distinct names, same global specs) with it one after the other"]
     rule = ("pairs and small sets of specs (widths 1..64 bits, regions 8 B..4 MB) placed relative to each other so that "
             "touching, nested, partially overlapping and far-apart layouts all occur; non-trivial = the pair/set overlaps "
             "or touches exactly; distinct = distinct (input, verdict)")
@@ -55,6 +55,35 @@ class Spec(unit.UnitSpec):
                 if rng.random() < 0.5:
                     a, b = b, a
                 cases.append(Case(["sanity pair %d %d %d %d %d %d" % (a + b)]))
+            elif rng.random() < 0.3:
+                # several policies registering with ONE checker (as the spaces of a plan do): local specs of different
+                # policies must be checked against each other
+                ng, np_ = rng.randrange(0, 3), rng.randrange(2, 5)
+                g, pol, flat = [], [], []
+                for j in range(ng):
+                    s = rand_spec(rng, (g[-1][0], rsize(g[-1][1], g[-1][2])) if g else None)
+                    if g and rng.random() < 0.8:
+                        s = (g[-1][0] + rsize(g[-1][1], g[-1][2]), s[1], s[2])
+                    g.append(s)
+                for _ in range(np_):
+                    l = []
+                    for j in range(rng.randrange(0, 3)):
+                        if len(flat) >= 8:
+                            break
+                        near = None
+                        if flat and rng.random() < 0.85:
+                            p = rng.choice(flat)
+                            near = (p[0], rsize(p[1], p[2]))
+                        s = rand_spec(rng, near)
+                        if flat and rng.random() < 0.6:
+                            p = flat[-1]
+                            s = (p[0] + rsize(p[1], p[2]), s[1], s[2])
+                        l.append(s); flat.append(s)
+                    pol.append(l)
+                toks = [str(ng)] + [str(x) for s in g for x in s] + [str(np_)]
+                for l in pol:
+                    toks += [str(len(l))] + [str(x) for s in l for x in s]
+                cases.append(Case(["sanity multi " + " ".join(toks)]))
             else:
                 ng, nl = rng.randrange(0, 4), rng.randrange(0, 4)
                 g, l = [], []
@@ -108,6 +137,27 @@ class Spec(unit.UnitSpec):
                 return [("sanity:accepts-overlap", f"plan-creation sanity check accepts a context with overlapping specs g={g} l={l}")]
             if not ov and budget and out != "ok":
                 return [("sanity:rejects-disjoint", f"plan-creation sanity check rejects a disjoint context g={g} l={l}: {out}")]
+        elif t[1] == "multi":
+            n = [int(x) for x in t[2:]]
+            ng = n[0]
+            g = [tuple(n[1 + 3 * i:4 + 3 * i]) for i in range(ng)]
+            p = 1 + 3 * ng
+            np_ = n[p]; p += 1
+            pol = []
+            for _ in range(np_):
+                nl = n[p]; p += 1
+                pol.append([tuple(n[p + 3 * i:p + 3 * i + 3]) for i in range(nl)])
+                p += 3 * nl
+            l = [s for q in pol for s in q]
+            budget = sum(rsize(s[1], s[2]) for s in g) <= 1 << 46 and all(rsize(s[1], s[2]) <= 1 << 46 for s in l)
+            def anyov(lst):
+                return any(overlap(x, y) for i, x in enumerate(lst) for j, y in enumerate(lst) if i != j)
+            ov = anyov(g) or anyov(l)
+            if ov and out == "ok":
+                return [("sanity:accepts-overlap", f"plan-creation sanity check accepts overlapping specs across the policies of one plan: "
+                                                   f"g={g} local specs per policy={pol}")]
+            if not ov and budget and out != "ok":
+                return [("sanity:rejects-disjoint", f"plan-creation sanity check rejects disjoint policies g={g} l={pol}: {out}")]
         return []
 
     def nontrivial(self, case, out):
